@@ -769,6 +769,7 @@ def Op.c17 : Op → Bool
   | .abruptClose _ => true
   | .serverClose => true
   | .acceptFault => false
+  | .connectNoSpawn _ => false
 
 /-- a new connection joins the listen queue of a busy one-shot server -/
 theorem GOk.add_backlog {s : St} (h : GOk s) (k : Nat) (cred : Cred) (ids : List Nat) (hcr : cred ≠ .silent)
@@ -864,6 +865,7 @@ theorem GOk.step {s s' : St} {o : Obs} (h : GOk s) (op : Op) (hop : op.c17 = tru
   | connectReuse k j => simp [Op.c17] at hop
   | releaseHook k => simp [Op.c17] at hop
   | acceptFault => simp [Op.c17] at hop
+  | connectNoSpawn k => simp [Op.c17] at hop
   | call k r =>
     unfold Srv.step at hs
     by_cases hu : usable s k = true
@@ -1006,6 +1008,8 @@ theorem step_cfg_close {s s' : St} {o : Obs} (h : step s .serverClose = .ok (s',
       · simp at hp
       · simp at hp; subst hp; simp
   · simp at h; obtain ⟨rfl, _⟩ := h; simp
+
+@[simp] theorem rejectNew_cfg (s : St) (k : Nat) : (rejectNew s k).cfg = s.cfg := rfl
 
 theorem step_cfg {s s' : St} {o : Obs} (op : Op) (h : step s op = .ok (s', o)) : s'.cfg = s.cfg := by
   cases op with
